@@ -67,7 +67,7 @@ func (w *Worker) Mine(ctx context.Context, data []byte, targetScore float64) (ui
 	}()
 
 	// compute the minimum numbers of trailing zeros required to get a PoW score ≥ targetScore
-	targetZeros := uint(math.Ceil(math.Log(float64(len(data)+nonceBytes)*targetScore) / ln3))
+	targetZeros := requiredTrailingZeros(len(data)+nonceBytes, targetScore)
 
 	workerWidth := math.MaxUint64 / uint64(w.numWorkers)
 	for i := 0; i < w.numWorkers; i++ {
@@ -93,6 +93,32 @@ func (w *Worker) Mine(ctx context.Context, data []byte, targetScore float64) (ui
 		return 0, ErrCancelled
 	}
 	return nonce, nil
+}
+
+// requiredTrailingZeros returns the smallest number of trailing zeros z such that 3^z / msgLen ≥ targetScore.
+func requiredTrailingZeros(msgLen int, targetScore float64) uint {
+	score := func(zeros uint) float64 {
+		// this must match the computation in Score
+		return math.Pow(consts.TrinaryRadix, float64(zeros)) / float64(msgLen)
+	}
+
+	// the logarithm is only an estimate as it is subject to floating point rounding errors
+	estimate := math.Ceil(math.Log(float64(msgLen)*targetScore) / ln3)
+	if estimate > consts.HashTrinarySize {
+		return consts.HashTrinarySize + 1 // unattainable
+	}
+	var zeros uint
+	if estimate > 0 { // trivially low targets lead to a negative estimate (or NaN)
+		zeros = uint(estimate)
+	}
+	// correct the estimate such that it is minimal and sufficient
+	for zeros > 0 && score(zeros-1) >= targetScore {
+		zeros--
+	}
+	for zeros <= consts.HashTrinarySize && score(zeros) < targetScore {
+		zeros++
+	}
+	return zeros
 }
 
 func (w *Worker) worker(powDigest []byte, startNonce uint64, target uint, done *uint32, counter *uint64) (uint64, error) {
